@@ -1,5 +1,5 @@
 (* C14 oracle.
-   w <seenprefs 0|1> <line> <nv> (<name> <flags7>)* <nm> (<pattern> <0 err|1 no|2 yes>)* <tree>
+   w <seenprefs 0|1> <line> <nv> (<name> <flags8>)* <nm> (<pattern> <0 err|1 no|2 yes>)* <tree>
        tree := O n t.. | A n t.. | N t | P t | D name | E name k mod.. | T name k mod.. | X
        -> <new line> <offered> <applied n> (<kind> <from> <to> <ast 0|1|2>)*
           ast: 1 = the spec's reader maps both texts to the model's trees, 0 = it does not, 2 = no tree (checkAnd)
@@ -44,20 +44,21 @@ let handle (args : string list) : string =
     if rest <> [] then "ERR:trailing tokens" else
     let vars = List.map (fun (n, f) -> (bytes_of_hex n, f)) vars in
     let mmns = List.map (fun (p, r) -> (bytes_of_hex p, r)) mmns in
-    let mk a b c d e f g = { vi_typed = a; vi_bt_unknown = b; vi_list = c; vi_always_in_scope = d;
-                             vi_defined_if_in_scope = e; vi_in_file = f; vi_use_loadtime = g } in
-    let none = mk false false false false false false false in
+    let mk a b c d e f g h = { vi_typed = a; vi_bt_unknown = b; vi_list = c; vi_always_in_scope = d;
+                               vi_defined_if_in_scope = e; vi_in_file = f; vi_use_loadtime = g;
+                               vi_nonempty_if_defined = h } in
+    let none = mk false false false false false false false false in
     let var_of name =
       (match List.assoc_opt name vars with
-       | Some f -> mk (flag f 0) (flag f 1) (flag f 2) (flag f 3) (flag f 4) (flag f 5) (flag f 6)
+       | Some f -> mk (flag f 0) (flag f 1) (flag f 2) (flag f 3) (flag f 4) (flag f 5) (flag f 6) (flag f 7)
        | None -> none) in
     let mmn_of pat =
       (match List.assoc_opt pat mmns with
        | Some "0" -> MmnErr | Some "1" -> MmnNo | Some "2" -> MmnYes
        | _ -> MmnErr) in
     let cx = { cx_var = var_of; cx_seen_prefs = (prefs = "1"); cx_mmn = mmn_of } in
-    let offered = List.length (walk cx tree) in
     let (nl, applied) = check_line cx (bytes_of_hex line) tree in
+    let offered = List.length applied in
     let one rw =
       let ast = (match rw.rw_from_c, rw.rw_to_c with
           | Some fc, Some tc ->
